@@ -891,6 +891,8 @@ class Engine:
         if not (isinstance(a, Int) and isinstance(b, Int)):
             raise Unsupported('binop %s on %r, %r' % (op, a, b))
         w, signed = INT_TYPES[a.ty]
+        if not a.concrete and not b.concrete and op in ('Eq', 'Ne', 'Le', 'Ge', 'Lt', 'Gt') and a.v.eq(b.v):
+            return op in ('Eq', 'Le', 'Ge')            # the same term on both sides: no constraint on the path
         if a.concrete and b.concrete:
             x, y = a.v, b.v
             if op in ('Add', 'AddUnchecked'): return Int(x + y, a.ty)
